@@ -812,8 +812,17 @@ def generate(run, scales, note_names, n_total):
                 ev = [[kk, (vv if kk == "args" else const(vv))] for kk, vv in ev]
             evs.append(ev)
         defaults = g.default_overrides(0.3)
-        defaults = [[n_, (P(*(v["p"] + [v["p"][0]] * 2)) if has_pattern(v) else v)] for n_, v in defaults]
-        add(g.finish(evs, defaults, mode="pseq"), "sequence", ["sequence.%d" % k])
+        # replay: the stream yields the SAME dictionary objects again (PSequence(dicts, repeats) / PLoop): every pass must
+        # perform the same documented messages - the dictionary the user wrote is not to be altered by playing it
+        reps = 1
+        if r.random() < 0.5 and not any(has_pattern(v) for ev in evs for _k, v in ev):
+            reps = r.choice([2, 3])
+        pad = 2 * max(1, k * reps)
+        defaults = [[n_, (P(*(v["p"] + [v["p"][0]] * pad)) if has_pattern(v) else v)] for n_, v in defaults]
+        case = g.finish(evs * reps, defaults, mode="pseq")
+        if reps > 1:
+            case["replay_period"] = k
+        add(case, "sequence", ["sequence.%d" % k] + (["sequence.replayed-dicts.x%d" % reps] if reps > 1 else []))
     run.cov["type_key_subsets_reached"] = "%d of 128 subsets of {action, patch, control, program_change, osc_address, synth, note|degree}" % len({(m, s != "none") for m, s in subsets_seen})
     return cases
 
@@ -886,6 +895,21 @@ def run_cases(run, cases, scales, note_names):
                     "observed": {"trace": res["trace"], "raise": res["raise"], "event": res["event"]},
                     "why": why, "oracle": "docs/events rendering (closed pitch formula, precedence list, synonym table, default chain)",
                     "python": snippet(c)})
+        # ---- oracle for replayed dictionaries: every pass over the same dictionary objects performs the same messages ----
+        if c.get("replay_period") and res["raise"] is None and c["nticks"] < 80 \
+                and not any(has_pattern(v) for _n, v in c["defaults"]):
+            run.cov["oracle_evaluations"] += 1
+            reps = len(c["events"]) // c["replay_period"]
+            L = [(x[1], json.dumps(x[2], sort_keys=True)) for x in res["trace"] if x[1] != "note_off"]
+            per = len(L) // reps if reps else 0
+            if len(L) % reps != 0 or any(L[i] != L[i % per] for i in range(len(L))):
+                c["oracle_failed"] = True
+                run.violation({"kind": "replayed-dict-differs", "site": "Event/perform_event", "stream": c["stream"]}, {
+                    "case": {k: c[k] for k in ("tpb", "nticks", "muted", "mode", "defaults", "events", "direct", "replay_period")},
+                    "expected": "the same device messages on each of the %d passes over the same %d dictionaries" % (reps, c["replay_period"]),
+                    "observed": {"trace": res["trace"], "raise": res["raise"]},
+                    "why": "an event dictionary yielded a second time did not resolve to the same messages (was it modified by being played?)",
+                    "oracle": "periodicity of the message list over passes", "python": snippet(c)})
         # ---- correspondence terms ------------------------------------------------------------------------
         me = model_events(c)
         d0 = me[0][1] if c["mode"] == "pdict" else c["direct"]
